@@ -13,8 +13,10 @@ open Flatland.Flat Flatland.Flat.Spec Flatland.Run.FlatCommon
     builds whenever the theorem's hypotheses hold) and `thm_hyp` = the decidable hypotheses
     `OkS e ∧ wf s ∧ rootOK s ∧ EnvOK` (compared with the harness's own transcription).
     `spec_agrees` re-checks the theorem's conclusion and `sparseNormal (prS e)` on every case the
-    theorem applies to, and — when also `blankSettled` — the second-trip clauses
-    `flatten (prS (prS e)) = flatten (prS e)`, `OkS (prS e)` (not theorems yet: checked at run time). -/
+    theorem applies to, and — not theorems yet, checked at run time — `OkS (prS e)` when `blankSettled`,
+    `flatten (prS (prS e)) = flatten (prS e)` when `blankSettled` and `prefixFree` (without `prefixFree`
+    the second trip can materialise further blank members: thorough seed 0 found the cascade
+    SparseDict{y?: Dict{s: SparseDict/required{b*?, b*b}}, yb} holding {yb}). -/
 def run (j : Json) : Except String Json := do
   let s ← parseSchema (← fld j "schema")
   let sep ← cfld j "sep"
@@ -37,10 +39,11 @@ def run (j : Json) : Except String Json := do
   let normal := sparseNormal s p1
   let okAgain := okSB env s p1
   let bs := blankSettled env s
-  let agrees := !(hyp && sepSafe) || (concl && normal && (!bs || (idem && okAgain)))
+  let pf := prefixFree s
+  let agrees := !(hyp && sepSafe) || (concl && normal && (!bs || okAgain) && (!(bs && pf) || idem))
   return obj [("flatten", pairsJson f0), ("rt_elem", elemJson e1), ("rt_flatten", pairsJson f1),
               ("rt2_flatten", pairsJson f2), ("prs_elem", elemJson p1), ("thm_hyp", Json.bool hyp),
-              ("has_sparse", Json.bool (hasSparse s)), ("prefix_free", Json.bool (prefixFree s)),
+              ("has_sparse", Json.bool (hasSparse s)), ("prefix_free", Json.bool pf),
               ("in_normal", Json.bool (sparseNormal s e)), ("blank_settled", Json.bool bs),
               ("prs_checks", obj [("concl", Json.bool concl), ("idem_flatten", Json.bool idem), ("idem_tree", Json.bool idemTree),
                                   ("normal", Json.bool normal), ("ok_again", Json.bool okAgain)]),
